@@ -49,6 +49,10 @@ class ZNCCTemplateMatcher(BaseTemplateMatcher):
             min_score=min_score,
         )
 
+    def _depth_margin(self, min_distance: float = 0.0, **kwargs) -> int:
+        # the maximum filter looks at the pixels within min_distance
+        return int(np.ceil(min_distance)) + 1
+
     def pick_in_chunk(
         self,
         image: NDArray[np.float32],
@@ -73,7 +77,8 @@ class ZNCCTemplateMatcher(BaseTemplateMatcher):
 
         pos = find_maxima(landscale_max, min_distance, min_score)
         argmax_indices = np.array(
-            [img_argmax[tuple(np.round(p).astype(np.int32))] for p in pos]
+            [img_argmax[tuple(np.round(p).astype(np.int32))] for p in pos],
+            dtype=np.intp,
         )
         score = _sample_score(landscale_max, pos)
         quats = self._index_to_quaternions(argmax_indices)
@@ -98,7 +103,8 @@ class LoGPicker(BasePickerModel):
 
     def get_params_and_depth(self, scale: nm):
         sigma_px = self._sigma / scale
-        depth = int(np.ceil(sigma_px * 2))
+        # support of the filter (truncated at 4 sigma) and of the maximum filter
+        depth = int(4 * sigma_px + 0.5) + int(np.ceil(sigma_px)) + 1
         return {"sigma": sigma_px}, depth
 
 
@@ -124,7 +130,8 @@ class DoGPicker(BasePickerModel):
     def get_params_and_depth(self, scale: nm):
         sigma1_px = self._sigma_low / scale
         sigma2_px = self._sigma_high / scale
-        depth = int(np.ceil(sigma1_px * 2))
+        # support of the filter (truncated at 4 sigma) and of the maximum filter
+        depth = int(4 * sigma2_px + 0.5) + int(np.ceil(sigma1_px)) + 1
         return {"sigma_low": sigma1_px, "sigma_high": sigma2_px}, depth
 
 
@@ -146,7 +153,7 @@ def find_maxima(img, min_distance: float, min_intensity: float):
     structure = np.stack([s0, s1, s0])
     label_img, nfeat = ndi.label(is_maxima, structure=structure)
     centers = ndi.center_of_mass(img, label_img, range(1, nfeat + 1))
-    return np.array(centers, dtype=np.float32)
+    return np.array(centers, dtype=np.float32).reshape(-1, img.ndim)
 
 
 def simple_pick(img: NDArray[np.float32], pos: NDArray[np.float32]):
@@ -157,6 +164,8 @@ def simple_pick(img: NDArray[np.float32], pos: NDArray[np.float32]):
 
 
 def _sample_score(img, pos: NDArray[np.float32]) -> NDArray[np.float32]:
+    if pos.shape[0] == 0:
+        return np.zeros(0, dtype=np.float32)
     return ndi.map_coordinates(img, pos.T, order=3, mode="reflect")
 
 
